@@ -318,7 +318,7 @@ func WellFormed(w World, allowRepeatPositional bool) bool {
 			}
 		}
 		switch o.Kind {
-		case OpCall, OpRedefine:
+		case OpCall, OpRedefine, OpLoadInput:
 			if o.Target < 0 || o.Target >= len(w.Parties) {
 				return false
 			}
